@@ -630,6 +630,13 @@ fn check_quiescent(f: &Forest, net: &Net, ca: (usize, usize), cb: (usize, usize)
         }
     }
     rep.outcome(&format!("converged/{}", mode));
+    // informational: entries the sync state still counts as being fetched although no fetch is outstanding
+    if net.fetch_a.is_empty() {
+        let stale: usize = net.a.routing.blockchain_sync_state.verif_snapshot().iter().map(|(_, q, _)| q.iter().filter(|e| e.2 == 1).count()).sum();
+        if stale > 0 {
+            rep.outcome(&format!("quiescent:fetching-entries-without-a-fetch/{}", mode));
+        }
+    }
 }
 
 /// default schedule: wire FIFO first, then fetches in order, then internals, then ticks
